@@ -796,3 +796,104 @@ def set_attributes_keys_from_source():
             seen.add(k)
             res.append(k)
     return res
+
+
+# ----------------------------------------------------------------------------- source tie (translate/history.py) and aimed search
+
+SRC_REQUIRES = REQUIRES + ["PV.Model.HistorySrc", "PV.gen.Src_history"]
+HIST_OK_SRC = "history_ok_gen src_history"
+RES_OK_SRC = "result_ok_gen src_result"
+
+
+def gen_aimed_history(rng, idx, tags):
+    """(keys, ops) aimed at the constructs named by tags (translate.history.regions_to_search): boundary iterations around the current
+    length (the growth test and amount), fresh keys (the None -> one-cell array step), mutable values changed after the call (the copies),
+    whole-array assignment followed by records (__setitem__), undeclared / deleted keys at every position of record_iteration."""
+    tags = [t for t in tags if not t.startswith("r")] or ["any"]
+    if "any" in tags:
+        tags = ["record", "expand", "setitem", "record_iteration", "init"]
+    keys = rng.sample(HIST_KEYS, rng.choice([1, 2, 3]))
+    if "init" in tags and rng.random() < 0.5:
+        keys = keys + [rng.choice(keys)]
+    ops, lens, recorded = [], {k: 0 for k in keys}, []
+    n_src = [0]
+
+    def val(mut):
+        v = gen_value(rng)
+        for _ in range(20):
+            if not mut or v["t"] in ("list", "dict", "nd"):
+                break
+            v = gen_value(rng)
+        if v["t"] in ("list", "dict", "nd"):
+            v = dict(v, n=n_src[0])
+            n_src[0] += 1
+        return v
+
+    def pick_key():
+        return rng.choice(keys) if rng.random() < 0.85 else rng.choice(UNKNOWN_KEYS)
+
+    def note(k, i):
+        if k in lens and i >= 0 and lens[k] is not None:
+            lens[k] = max(lens[k], i + 1)
+            recorded.append((k, i))
+
+    n = rng.choice([3, 5, 8])
+    while len(ops) < n:
+        tag = rng.choice(tags)
+        k = pick_key()
+        L = lens.get(k) or 0
+        if tag in ("record", "expand", "init"):
+            i = rng.choice([max(L - 1, 0), L, L, L + 1, L + 2, 0, -1, L + rng.randint(3, 9)])
+            v = val(rng.random() < 0.6)
+            ops.append(dict(op="record", k=k, v=v, i=i))
+            note(k, i)
+            if "n" in v:
+                ops.append(dict(op="mutate_src", n=v["n"], salt=rng.randint(1, 50)))
+            if recorded and rng.random() < 0.4:
+                k2, j = rng.choice(recorded)
+                ops.append(dict(op="mutate_at", k=k2, j=j, salt=rng.randint(1, 50)))
+            if recorded and rng.random() < 0.25:
+                k2, j = rng.choice(recorded)
+                ops.append(dict(op="record_from", k=k, k2=k2, j=j, i=L))
+                note(k, L)
+            if rng.random() < 0.3:
+                ops.append(dict(op="get", k=k))
+        elif tag == "setitem":
+            s = rng.random()
+            if s < 0.2:
+                src = dict(t="none")
+            elif s < 0.3:
+                src = dict(t="scalar", v=rng.choice([5, 2.5]))
+            else:
+                cells = [None if rng.random() < 0.3 else val(rng.random() < 0.7) for _ in range(rng.randint(0, 4))]
+                src = dict(t="arr", cells=cells)
+            ops.append(dict(op="set", k=k, src=src))
+            if k in lens:
+                lens[k] = None if src["t"] == "scalar" else (len(src["cells"]) if src["t"] == "arr" else 0)
+            if src["t"] == "arr":
+                ops.append(dict(op="mutate_srcarr", salt=rng.randint(1, 50)))
+                for c in src["cells"]:
+                    if c is not None and c.get("n") is not None:
+                        ops.append(dict(op="mutate_src", n=c["n"], salt=rng.randint(1, 50)))
+            ops.append(dict(op="get", k=k))
+            if rng.random() < 0.5:
+                i = rng.choice([0, (lens.get(k) or 0), (lens.get(k) or 0) + 1])
+                ops.append(dict(op="record", k=k, v=val(True), i=i))
+                note(k, i)
+        else:       # record_iteration
+            i = rng.choice([0, L, L + 1, -1, -3])
+            pool = sorted(set(keys)) + [rng.choice(UNKNOWN_KEYS)]
+            kvs = [[kk, val(rng.random() < 0.5)] for kk in rng.sample(pool, rng.randint(1, min(3, len(pool))))]
+            ops.append(dict(op="record_iteration", kvs=kvs, i=i))
+            for kk, v in kvs:
+                if kk not in lens:
+                    break
+                note(kk, i)
+            for kk, v in kvs:
+                if "n" in v:
+                    ops.append(dict(op="mutate_src", n=v["n"], salt=rng.randint(1, 50)))
+            if rng.random() < 0.3:
+                kd = rng.choice(keys)
+                ops.append(dict(op="del", k=kd))
+                lens.pop(kd, None)
+    return keys, ops
